@@ -2,16 +2,16 @@ SPECIFICATION Spec
 CONSTANTS
   Variants = {"best", "deadline"}
   Relays = {1, 2}
-  FetchSet = {}
+  FetchSet <- MCFetchFirst
   Values = {1, 2}
-  CfgSet <- MCCfgHist
-  TableSet = {"A", "B"}
-  BuilderSet = {"std", "half"}
-  AnswerSet <- MCAnswersHist
+  CfgSet <- MCCfgClients
+  TableSet = {"A"}
+  BuilderSet = {"std"}
+  AnswerSet <- MCAnswersClients
   Headers = {1}
   MaxRounds = 1
   Keys = {1, 2, 3}
-  MaxAuctions = 3
+  MaxAuctions = 2
   MaxOpen = 1
   Deviation = "none"
 INVARIANTS TypeOK ClientOfAddress WinnerIsArgmax OnlyEligibleWin ProvidersOfferedWinner NoWinnerIffNone ParticipationSound ArrivedConsidered CacheRight ServedRight HistoryShape
